@@ -112,6 +112,18 @@ impl Node {
             _ => {}
         }
     }
+    /// raw key-hash atoms appearing
+    pub fn rawpkhs(&self, acc: &mut Vec<u32>) {
+        use Node::*;
+        match self {
+            RawPkH(h) => acc.push(*h),
+            Alt(x) | Swap(x) | Check(x) | DupIf(x) | Verify(x) | NonZero(x) | ZeroNotEqual(x) => x.rawpkhs(acc),
+            AndV(a, b) | AndB(a, b) | OrB(a, b) | OrD(a, b) | OrC(a, b) | OrI(a, b) => { a.rawpkhs(acc); b.rawpkhs(acc) }
+            AndOr(a, b, c) => { a.rawpkhs(acc); b.rawpkhs(acc); c.rawpkhs(acc) }
+            Thresh(_, xs) => for x in xs { x.rawpkhs(acc) },
+            _ => {}
+        }
+    }
     pub fn hashes(&self, acc: &mut Vec<(HK, u32)>) {
         use Node::*;
         match self {
@@ -338,7 +350,7 @@ pub fn default_atoms(ctx: CtxK, small: bool) -> Atoms {
     Atoms {
         keys: ctx_keys(ctx, nk),
         unc_keys: if matches!(ctx, CtxK::Bare | CtxK::Legacy) && !small { vec![100] } else { vec![] },
-        hashes: if small { vec![(HK::Sha256, 0)] } else { vec![(HK::Sha256, 0), (HK::Hash160, 1)] },
+        hashes: if small { vec![(HK::Sha256, 0), (HK::Ripemd160, 1)] } else { vec![(HK::Sha256, 0), (HK::Hash160, 1), (HK::Hash256, 2), (HK::Ripemd160, 3)] },
         afters: if small { vec![100] } else { vec![100, 500_000_001] },
         olders: if small { vec![10] } else { vec![10, 4_194_305] },
     }
